@@ -571,6 +571,9 @@ def run(prog, tier):
         if o['rule'] == 'trimmed-name' or (o['rule'] == 'index-by-name' and ('pointIdx' in o.get('function', '') or 'channelIdx' in o.get('function', ''))) or \
                 (o['rule'] == 'name-index' and ('Points::' in o.get('function', '') or 'SubFrame::' in o.get('function', ''))):
             res.obs.append(dict(o, rule='name-match/' + o['rule']))
+    # POINT:USED / ANALOG:USED, against which frames are judged, stay the counts of every frame only while frames share nothing
+    import p_c08
+    p_c08.ownership_rules(prog, res, rule_prefix='declared-shape/ownership')
     # a positional look-up inside the guard prefix that the guards before it do not cover throws std::out_of_range
     # instead of the documented class (or refuses a valid call)
     import indexsites
